@@ -1,3 +1,118 @@
-namespace Placeholder
-theorem placeholder_C06 : True := trivial
-end Placeholder
+import Proofs.Path
+import Proofs.Spawn
+/-!
+# C06  Child gets exactly the requested argv, program, environment, cwd, identity
+
+* `format_env` (pure): one entry per name, the later of duplicate names wins — for every list.
+* the order of the child-side steps: `chdir`, stream wiring, signal reset, `setgid`, `setuid`,
+  `setpgid`, and only then `exec`; with the credential rules of A8 the order `setgid` → `setuid`
+  makes both requests take effect (the original order made the second one fail: defect F3).
+* NUL bytes: refused before anything is started.
+The argument vector, the environment vector and the path handed to `execve` are compared byte for
+byte with the model (`Path.renderEnv`, `Path.candidates`) on every run.
+-/
+namespace Path
+
+/-- **C06 (environment).**  The environment handed to the child has one entry per name
+    (`Nodup` names), consists of requested entries in their original relative order (`Sublist`),
+    and looking a name up gives the value of its **last** occurrence in the request. -/
+theorem c06_formatEnv_spec (env : List (List Nat × List Nat)) :
+    ((formatEnv env).map (·.1)).Nodup ∧ (formatEnv env).Sublist env ∧
+    ∀ k, ((formatEnv env).find? (fun e => e.1 == k)).map (·.2) = lastVal k env :=
+  ⟨formatEnv_keys_nodup env, formatEnv_sublist env, fun k => formatEnv_lookup k env⟩
+
+/-- a name is present iff it was requested at all -/
+theorem c06_formatEnv_complete (k : List Nat) (env : List (List Nat × List Nat)) :
+    (∃ v, (k, v) ∈ env) ↔ ∃ v, (k, v) ∈ formatEnv env := by
+  constructor
+  · rintro ⟨v, hv⟩
+    have : lastVal k env ≠ none := by
+      rw [Ne, lastVal_none_iff]; intro h; exact h _ hv rfl
+    rw [← formatEnv_lookup] at this
+    cases hf : (formatEnv env).find? (fun e => e.1 == k) with
+    | none => simp [hf] at this
+    | some e =>
+      have hm := List.mem_of_find?_eq_some hf
+      have hk := List.find?_some hf
+      simp only [beq_iff_eq] at hk
+      exact ⟨e.2, by rw [← hk]; exact hm⟩
+  · rintro ⟨v, hv⟩; exact ⟨v, formatEnv_mem env _ hv⟩
+
+example : renderEnv [([65], [49]), ([66], [49]), ([65], [50]), ([66], [50])] = [[65, 61, 50], [66, 61, 50]] := by decide
+
+end Path
+
+namespace Spawn
+
+/-- **C06 (order of the child-side steps).**  Everything the child does before `exec`, in order:
+    close the status read end, `chdir` if requested, the stream wiring, the signal reset, then
+    `setgid` (if requested) **before** `setuid` (if requested), then `setpgid`. -/
+theorem c06_child_order (c : Cfg) (p : Pipes) (sr : Nat) :
+    ∃ wiring, childSteps c p sr =
+      [.close sr] ++ (if c.cwd then [.chdir] else []) ++ wiring ++ [.sigmask, .signal] ++
+      (match c.gid with | some g => [.setgid g] | none => []) ++
+      (match c.uid with | some u => [.setuid u] | none => []) ++
+      (if c.pgid then [.setpgid] else []) ∧
+      ∀ x ∈ wiring, (∃ a b, x = .dup2 a b) ∨ ∃ f, x = .close f := by
+  refine ⟨dupStep 0 (endIn c p) [endOut c p, endErr c p] ++ dupStep 1 (endOut c p) [endErr c p] ++ dupStep 2 (endErr c p) [],
+    by cases hg : c.gid <;> cases hu : c.uid <;> simp [childSteps, hg, hu, List.append_assoc], ?_⟩
+  have hdup : ∀ i e later, ∀ x ∈ dupStep i e later, (∃ a b, x = .dup2 a b) ∨ ∃ f, x = .close f := by
+    intro i e later x hx
+    unfold dupStep at hx
+    cases e <;> simp at hx <;> (repeat' split at hx) <;> (try simp_all)
+    rcases hx with ⟨_, rfl⟩ | ⟨_, rfl⟩ <;> simp
+  intro x hx
+  simp only [List.mem_append] at hx
+  rcases hx with (hx | hx) | hx
+  · exact hdup _ _ _ x hx
+  · exact hdup _ _ _ x hx
+  · exact hdup _ _ _ x hx
+
+/-! #### Credentials (A8) -/
+structure Cred where
+  ruid : Nat
+  euid : Nat
+  suid : Nat
+  rgid : Nat
+  egid : Nat
+  sgid : Nat
+  deriving DecidableEq, Repr
+
+/-- `setgid(g)`: a privileged process sets all three group ids; an unprivileged one may only switch
+    to its real or saved gid (else `EPERM`: `none`) -/
+def setgidK (k : Cred) (g : Nat) : Option Cred :=
+  if k.euid = 0 then some { k with rgid := g, egid := g, sgid := g }
+  else if g = k.rgid ∨ g = k.sgid then some { k with egid := g } else none
+/-- `setuid(u)` by a privileged process sets real, effective and saved uid (privilege is gone for `u ≠ 0`) -/
+def setuidK (k : Cred) (u : Nat) : Option Cred :=
+  if k.euid = 0 then some { k with ruid := u, euid := u, suid := u }
+  else if u = k.ruid ∨ u = k.suid then some { k with euid := u } else none
+
+/-- **C06 (both ids when both are requested).**  In the order the library uses, a privileged
+    parent requesting uid `u` and gid `g` obtains a child with exactly `(u, g)`, for every `u`, `g`. -/
+theorem c06_ids (k : Cred) (u g : Nat) (hp : k.euid = 0) :
+    ∃ k', (setgidK k g).bind (fun k1 => setuidK k1 u) = some k' ∧
+      k'.ruid = u ∧ k'.euid = u ∧ k'.suid = u ∧ k'.rgid = g ∧ k'.egid = g ∧ k'.sgid = g := by
+  simp [setgidK, setuidK, hp]
+
+/-- the original order (`setuid` first) fails whenever the privileges are really dropped and the
+    group is a new one: the regression witness of defect F3 -/
+theorem c06_ids_counterexample_old_order :
+    (setuidK ⟨0, 0, 0, 0, 0, 0⟩ 1000).bind (fun k1 => setgidK k1 1000) = none := by decide
+
+/-- **C06 (NUL bytes).**  A NUL byte in an argument, an environment name or value (or the working
+    directory) makes the attempt fail before the fork: no `fork` call is issued, the result is not
+    `Ok`, and everything opened so far is closed again (by `c07_no_fd_left_before_fork`). -/
+theorem c06_nul_rejected (c : Cfg) (rs : List SResp) (ha : c.argvEmpty = false) (hn : c.nul = true) :
+    hasFork (parentRun c rs).calls = false ∧
+    (acquireAll (stagesOf c) (s0 c) rs).fail ≠ none ∧
+    closedBy (parentRun c rs).calls = (acquireAll (stagesOf c) (s0 c) rs).s.owned := by
+  obtain ⟨p1, -, -, -, -, -, -, -, -, -, -, hbad, -⟩ := prefork_facts c rs
+  obtain ⟨hfail, hnf⟩ := hbad (Or.inl hn)
+  cases hf : (acquireAll (stagesOf c) (s0 c) rs).fail with
+  | none => exact absurd hf hfail
+  | some r =>
+    obtain ⟨hc, -⟩ := parentRun_fail c rs ha r hf
+    refine ⟨by rw [hc, hasFork_append, hnf]; simp, by simp, by rw [hc, closedBy_append, p1, closedBy_closeAll]; rfl⟩
+
+end Spawn
